@@ -379,7 +379,7 @@ pub fn run_one(cfg : &Config, seed : u64, k : u64, stats : &mut Stats) -> Vec<Fo
     let mut seen = BTreeSet::new();
     for v in vs
     {
-        if !seen.insert(v.sig.clone()) { continue; }
+        if !seen.insert(v.sig.clone()) || !stats.reported.insert(v.sig.clone()) { continue; }
         // minimise the request list (the history is kept: it produced the directory)
         let mut best = reqs.clone();
         let mut i = best.len();
